@@ -13,9 +13,14 @@ import (
 )
 
 // Param draws a parameter from {omitted, 0, 1, size-1, size, size+1, small,
-// 65535, 2^31, overflowing 20-digit}.
+// 65535, 2^31, overflowing 20-digit, 20-digit values that wrap a 64-bit
+// integer to -1, -3 and the smallest value}.
 func Param(r gen.R, size int) string {
-	switch r.Intn(14) {
+	switch r.Intn(16) {
+	case 14:
+		return []string{"18446744073709551615", "18446744073709551613"}[r.Intn(2)]
+	case 15:
+		return []string{"9223372036854775808", "18446744073709551615"}[r.Intn(2)]
 	case 0:
 		return ""
 	case 1:
